@@ -97,6 +97,11 @@ def prove(run, cfg, budget_ms):
             for q, c in ms.contracts.items():
                 if names is not None and q not in names:
                     continue
+                if getattr(c, 'assumed', False):
+                    a = f'ASSUMED contract (not verified, used at call sites): {c.fid}'
+                    if a not in run.trusted:
+                        run.trusted.append(a)
+                    continue
                 t = time.time()
                 try:
                     obs = symexec.verify_contract(ex, c)
@@ -421,7 +426,7 @@ def make_baseline():
             for ms in [m for m in api.MODULES.values() if m in getattr(mod, 'MODULES_HERE', [getattr(mod, 'M', None)])]:
                 ex = symexec.get_exec(REPO, ms, api.REGISTRY)
                 for q, c in ms.contracts.items():
-                    if c.fid in seen:
+                    if c.fid in seen or getattr(c, 'assumed', False):
                         continue
                     seen.add(c.fid)
                     try:
